@@ -1615,6 +1615,93 @@ def oracle_drain(ctx: Ctx, res: OracleResult, hist: Hist) -> None:
 
 
 # ---------------------------------------------------------------------------
+# oracle (d'): TEXT-mode readers.  The unit of read(n) is a character; packets cut the byte stream anywhere, also
+# inside a multi-byte character.  Whatever the cut points: the pieces add up to the decoded text, read(n) gives at
+# most n characters, and an empty result means EOF and nothing else.
+
+TEXT_SAMPLES = ['a\u20acb', '\u20ac', 'x\u00e9y\u00e9z\n', '\U0001f600\U0001f600', 'ab\ncd\n', '\u00e9' * 7, 'k\u20ac\n\U0001f600!']
+
+
+async def run_text_read_case(text: str, cuts: List[int], op: str, n: int) -> Optional[str]:
+    data = text.encode('utf-8')
+    bounds = [0] + sorted(set(c for c in cuts if 0 < c < len(data))) + [len(data)]
+    chunks = [data[a:b] for a, b in zip(bounds, bounds[1:])]
+
+    async def handler(process: Any) -> None:
+        for ch in chunks:
+            process.stdout.write(ch)
+            await pair.settle(6)            # each chunk travels as a packet of its own
+        process.exit(0)
+    c, sconn, hub = await pair.make_pair(server_opts=dict(process_factory=handler, encoding=None))
+    try:
+        p = await c.create_process('t', encoding='utf-8')
+        got: List[str] = []
+        for _ in range(len(data) + 4):
+            if op == 'read':
+                d = await asyncio.wait_for(p.stdout.read(n), 10)
+            elif op == 'readline':
+                d = await asyncio.wait_for(p.stdout.readline(), 10)
+            else:
+                try:
+                    d = await asyncio.wait_for(p.stdout.readexactly(n), 10)
+                except asyncio.IncompleteReadError as e:
+                    d = e.partial
+                    got.append(d)
+                    break
+            if d == '':
+                if not p.stdout.at_eof():
+                    return '%s returned an empty string although no EOF had been received (so far %r of %r)' \
+                           % (op, ''.join(got), text)
+                break
+            if op in ('read', 'readexactly') and len(d) > n:
+                return '%s(%d) returned %d characters' % (op, n, len(d))
+            if op == 'readexactly' and len(d) != n:
+                return 'readexactly(%d) returned %d characters without raising' % (n, len(d))
+            got.append(d)
+        if ''.join(got) != text:
+            return '%s pieces add up to %r, sent %r' % (op, ''.join(got), text)
+    except asyncio.TimeoutError:
+        return '%s timed out' % op
+    except Exception as e:      # noqa: BLE001
+        return 'client side raised %s: %s' % (type(e).__name__, e)
+    finally:
+        c.abort()
+        await pair.settle(10)
+    return None
+
+
+def oracle_text_reads(ctx: Ctx, res: OracleResult, hist: Hist) -> None:
+    rng = ctx.subrng('oracle-text')
+    cases: List[Tuple[str, List[int], str, int]] = [('\u20ac', [2], 'read', 10), ('a\u20acb', [2, 3], 'read', 1),
+                                                      ('\U0001f600x', [1, 2, 3], 'readexactly', 1),
+                                                      ('\u00e9\n', [1], 'readline', 0)]
+    for _ in range(ctx.n(24, 200)):
+        text = rng.choice(TEXT_SAMPLES)
+        nb = len(text.encode('utf-8'))
+        cuts = sorted(rng.sample(range(1, nb), min(nb - 1, rng.randint(1, 4)))) if nb > 1 else []
+        cases.append((text, cuts, rng.choice(['read', 'read', 'readline', 'readexactly']), rng.choice([1, 2, 3, 100])))
+
+    async def run_all() -> List[Failure]:
+        fails = []
+        for text, cuts, op, n in cases:
+            try:
+                bad = await asyncio.wait_for(run_text_read_case(text, cuts, op, n), 60)
+            except Exception as e:      # noqa: BLE001
+                bad = 'the scenario could not be played: %s: %s' % (type(e).__name__, e)
+            res.evaluations += 1
+            hist.hit('text-read:' + op)
+            if bad:
+                sig = 'stream-read:empty-result-without-eof:partial-character' if 'empty string' in bad \
+                    else 'text-read:%s:contract-broken' % op
+                fails.append(Failure(signature=sig,
+                                     what='text reader, UTF-8 bytes of %r cut at %s, %s(%d): %s' % (text, cuts, op, n, bad),
+                                     replay={'kind': 'text-read', 'text': text, 'cuts': cuts, 'op': op, 'n': n}))
+        return fails
+    res.failures += _dedupe(pair.run(run_all(), timeout=900))
+    res.nontrivial += len(cases)
+
+
+# ---------------------------------------------------------------------------
 # oracle (e): redirect SOURCES, drain on a redirected stream, two streams sharing the session's pause limit
 # (scenario code: _c19_redir.py; one signature per root cause)
 
@@ -1763,6 +1850,7 @@ def oracle(ctx: Ctx) -> OracleResult:
     oracle_hostile(ctx, res, hist)
     oracle_redirect(ctx, res, hist)
     oracle_drain(ctx, res, hist)
+    oracle_text_reads(ctx, res, hist)
     oracle_sources(ctx, res, hist)
     res.failures = _dedupe(res.failures)
     res.histogram = dict(hist)
@@ -1843,4 +1931,9 @@ def replay(ctx: Ctx, rep: Dict[str, Any]) -> List[Failure]:
     if kind == 'drain':
         bad = pair.run(run_drain_case(r['window'], r['total'], r['how']))
         return [Failure('drain:%s:contract-broken' % r['how'], bad, r)] if bad else []
+    if kind == 'text-read':
+        bad = pair.run(run_text_read_case(r['text'], list(r['cuts']), r['op'], r['n']))
+        sig = 'stream-read:empty-result-without-eof:partial-character' if bad and 'empty string' in bad \
+            else 'text-read:%s:contract-broken' % r['op']
+        return [Failure(sig, bad, r)] if bad else []
     return []
